@@ -16,7 +16,7 @@ def codes(s): return list(s.encode("utf-8", "surrogatepass")) if isinstance(s, s
 
 def shapes(run):
     cfg = "SPECIFICATION CliSpec\nINVARIANT SuccessIffAllStages\nINVARIANT ExitIsZeroOrOne\nINVARIANT Emit\nCHECK_DEADLOCK FALSE\n"
-    lines, st, dt = vlib.tlc(run, "MC_Cli", cfg, workers=2, timeout=300)
+    lines, st, dt = vlib.tlc(run, "MC_Cli", cfg, workers=2, timeout=300, coverage=True)
     return vlib.tagged(lines, "VEC")
 
 def materials(run, exe, rnd):
